@@ -62,7 +62,7 @@ func orderTable(rep *kit.Report, phase string) {
 	for i, d := range dirs {
 		pos[d] = i
 	}
-	content := []string{"templates", "proxy", "fastcgi", "websocket", "markdown", "browse"}
+	content := []string{"templates", "proxy", "fastcgi", "websocket", "markdown", "browse", "pprof", "expvar"} // (the last two answer under /debug)
 	var pairs [][2]string
 	for _, c := range content {
 		for _, outer := range []string{"log", "gzip", "header", "errors", "basicauth", "redir", "status", "internal", "rewrite", "ext", "tryfiles", "mime", "limits"} {
@@ -92,7 +92,7 @@ func orderTable(rep *kit.Report, phase string) {
 
 func main() {
 	rep := kit.NewReport("C09", "exploration",
-		"every block of root + <=3 (thorough 4) lines from a 26-line menu of standard directives (two rewrite and two header lines included) x every permutation of its lines that keeps same-directive lines in relative order x 20 requests; full response (status, header multiset minus Date, decoded body) and access-log line must equal those of the canonically ordered block; plus a table of ~100 documented ordered pairs checked against casket.ValidDirectives(\"http\") before and after a rejected load; distinct_nontrivial = outcome classes")
+		"every block of root + <=3 (thorough 4) lines from a 27-line menu of standard directives (two rewrite, two header and two redir lines included, one of them ending in an attached comment) x every permutation of its lines that keeps same-directive lines in relative order x 21 requests; full response (status, header multiset minus Date, decoded body) and access-log line must equal those of the canonically ordered block; plus a table of ~130 documented ordered pairs checked against casket.ValidDirectives(\"http\") before and after a rejected load; distinct_nontrivial = outcome classes")
 	kit.Init()
 	kit.Log.Off.Store(true)
 	base := kit.TempDir("c09")
@@ -139,6 +139,7 @@ func main() {
 		"rewrite /rw /secret/s.txt",
 		"rewrite /r2 /pub/p.txt",
 		"redir /old /new 302",
+		"redir /old2 /new2#anchor", // (a comment attached to the last word: the line ends where it is written to end)
 		"basicauth /secret u p",
 		"internal /int",
 		"status 418 /teapot",
@@ -179,6 +180,7 @@ func main() {
 		kit.Get("GET", "/rw", "a.test:8080", "Authorization: Basic dTpw"),
 		kit.Get("GET", "/r2", "a.test:8080", "Accept-Encoding: gzip"),
 		kit.Get("GET", "/old", "a.test:8080"),
+		kit.Get("GET", "/old2", "a.test:8080"),
 		kit.Get("GET", "/secret/s.txt", "a.test:8080"),
 		kit.Get("GET", "/int/x.txt", "a.test:8080"),
 		kit.Get("GET", "/teapot", "a.test:8080"),
